@@ -20,13 +20,19 @@ UNITS['prx3'] = dict(SER, cxxflags=['-D__TBB_BUILD=1', '-DVP_PROXY=1'], threads=
 UNITS['arena2'] = dict(wrapper='w_arena.cpp', mode='lcs', unroll=1, exceptions=True, prune=True, cut=['timed_spin_wait_until'], pure=['get_waiting_threads_monitor'], cxxflags=['-D__TBB_BUILD=1', '-mrtm', '-mwaitpkg'],
                        threads={'vp_thr_spawner': ['a'], 'vp_thr_idle': ['b']})
 EXEC = dict(wrapper='w_exec.cpp', mode='lcs', unroll=1, exceptions=True, prune=True, devirt=True, cut=['timed_spin_wait_until', 'enqueue_task'], pure=['pthread_getspecific'], ptrhooks=True,
+            noinline=['concurrent_monitor_baseImE12prepare_wait', 'concurrent_monitor_baseImE11cancel_wait', 'concurrent_monitor_baseImE18notify_one_relaxed'],
             cxxflags=['-D__TBB_BUILD=1', '-mrtm', '-mwaitpkg'],
             # destructors that stay out-of-line only on the exceptional clean-up paths (landing pads) of task_arena_impl::execute; no stub throws, so those
             # paths are dead; every normal-path call of them is inlined (checked in the IR)
             allow_atomic=['_ZN3tbb6detail2d118task_group_contextD2Ev', '_ZN3tbb6detail2d123task_scheduler_observerD2Ev', '_ZN3tbb6detail2r110sleep_nodeImED2Ev',
-                          '_ZN3tbb6detail2r114delegated_taskD2Ev', '_ZN3tbb6detail2r120nested_arena_contextD2Ev', '__clang_call_terminate'])
-UNITS['exec_ew'] = dict(EXEC, threads={'vp_thr_entrant': ['a'], 'vp_thr_worker': ['b']})
-UNITS['exec_elw'] = dict(EXEC, threads={'vp_thr_entrant': ['a'], 'vp_thr_leaver': ['b'], 'vp_thr_worker': ['c']})
+                          '_ZN3tbb6detail2r114delegated_taskD2Ev', '_ZN3tbb6detail2r120nested_arena_contextD2Ev', '__clang_call_terminate',
+                          # monitor operations kept out of line (see `noinline`): one atomic step each in this harness; their internals are monitor_*'s job
+                          '_ZN3tbb6detail2r123concurrent_monitor_baseImE11cancel_waitERNS1_9wait_nodeImEE', '_ZN3tbb6detail2r123concurrent_monitor_baseImE12prepare_waitERNS1_9wait_nodeImEE',
+                          '_ZN3tbb6detail2r123concurrent_monitor_baseImE18notify_one_relaxedEv'])
+CUTNEST = ['timed_spin_wait_until', 'enqueue_task', 'nested_arena_contextC2E', 'nested_arena_contextD2Ev']
+UNITS['exec_e'] = dict(EXEC, cut=CUTNEST, threads={'vp_thr_entrant': ['a'], 'vp_thr_leaver2': ['b']})
+UNITS['exec_ew'] = dict(EXEC, cut=CUTNEST, threads={'vp_thr_entrant': ['a'], 'vp_thr_worker': ['b']})
+UNITS['exec_l'] = dict(EXEC, threads={'vp_thr_waiter': ['a'], 'vp_thr_leaver': ['b']})
 COMMON = dict(cbmc=['--unwind', '8', '--object-bits', '12'], native_cflags=['-fno-sanitize=null,pointer-overflow'], mem_gb=8)
 def H(**kw):
     d = dict(COMMON); d.update(kw); return d
@@ -106,8 +112,8 @@ HARNESSES = [
   H(name='arena_flag', unit='arena2', harness='h_arena.c', defines={'ROUNDS': 2}, scenarios=[{'PRESET': 1}, {'PRESET': 0}], timeout=1800, tiers=['thorough'],
     desc='arena pool-state flag', bounds={'threads': 2}),
 ]
-HARNESSES.append(H(name='execute_slot_wait', unit='exec_elw', harness='h_exec.c', defines={'MODE': 1, 'GATE': 1, 'ROUNDS': 1, 'EXTRA_E': 1}, scenarios=[{'LSLOT': 0}], timeout=1800, cbmc=['--unwind', '4', '--object-bits', '12', '--no-array-field-sensitivity'],
-    desc='task_arena::execute slot wait', bounds={'threads': 2}))
+EXC = dict(cbmc=['--unwind', '4', '--object-bits', '12'], timeout=1800)
+HARNESSES.append(H(name='execute_slot_wait', unit='exec_e', harness='h_exec.c', defines={'SIDE': 1, 'ROUNDS': 2, 'EXTRA_E': 1}, scenarios=[{'LSLOT': 0}], desc='E side', bounds={'threads': 2}, **EXC))
 # development aid (mutation testing of one expensive scenario): VP_C02_SCEN="OP0=0,OP1=4" keeps only the scenarios containing these pairs
 import os as _os
 if _os.environ.get('VP_C02_SCEN'):
